@@ -194,8 +194,9 @@ def updateFlags (k : Kind) (s : St) (p4 : Word) (parents : List Nat) (leafIdx : 
     if Pte.isUnused e then (.error .notMapped, s)
     else if huge && !Pte.huge e then (.error .parentHuge, s)
     else
-      let fl := if huge then flags ||| Pte.HUGE else flags
-      (.ok (), s.wr t leafIdx (Pte.setFlags e fl))
+      -- huge: `set_addr(huge_frame_addr(entry), flags | HUGE_PAGE)`; 4 KiB: `set_flags(flags)`
+      let v := if huge then Pte.mk (Pte.hugeAddr e) (flags ||| Pte.HUGE) else Pte.setFlags e flags
+      (.ok (), s.wr t leafIdx v)
 
 /-- `set_flags_p4_entry` / `p3` / `p2`: `parents` are the indices above the entry, `idx` its slot.
 (since `fix:` commit F7 an entry that is itself a huge page is rejected). -/
